@@ -962,7 +962,7 @@ func vC14Enumerate(depth int, reducedLast bool, lean bool, full64Depth int, serv
 				continue
 			}
 			// the 65536-byte frame carries its whole payload only near the root (size of the run)
-			full := s.form == 3 && d <= full64Depth
+			full := s.form == 3 && d <= full64Depth && (d == 1 || (s.rsv == 0 && !s.wrong))
 			w := append(append([]byte{}, prefix...), vC14Ser(vC14SymFrame(s, server, full))...)
 			emit(w, s, d)
 			if d < depth {
@@ -1047,7 +1047,7 @@ func TestVerifC14(t *testing.T) {
 					limits = append(limits, 251)
 				}
 			}
-			if last.form == 3 && d <= full64 {
+			if last.form == 3 && d <= full64 && (d == 1 || (last.rsv == 0 && !last.wrong)) {
 				// whole 65536-byte payload present: only limits that let it through or just not
 				limits = []int64{0, 65535, 65536}
 				if d > 1 || last.rsv != 0 || last.wrong {
